@@ -21,6 +21,42 @@ pub struct Obj {
     pub num: AtomicU64,
     panic_on_drop: AtomicBool,
     creator: RealUsize,
+    /// simulated pointee type (containers of different `ty` stand for `ArcSwapAny<Arc<X>>` and
+    /// `ArcSwapAny<Arc<Y>>`; the program generator never mixes them, so the crate is never *told*
+    /// to count an X as a Y)
+    ty: AtomicU32,
+}
+
+pub const F9B_MARK: &str = "[F9b: a reference of a value of one pointee type was released (T::dec) by an operation on a container of another pointee type]";
+
+thread_local! {
+    /// pointee type of the container the current crate operation works on (0xFF: not checked)
+    static CUR_TY: std::cell::Cell<u8> = const { std::cell::Cell::new(0xFF) };
+    static TY_STACK: std::cell::RefCell<Vec<u8>> = const { std::cell::RefCell::new(Vec::new()) };
+}
+static CTAGS: Mutex<Vec<(usize, u8)>> = Mutex::new(Vec::new());
+
+pub fn ctag_register(addr: usize, tag: u8) {
+    CTAGS.lock().unwrap().push((addr, tag));
+}
+pub fn ctag_clear() {
+    CTAGS.lock().unwrap().clear();
+}
+/// entering a crate operation on the container at `addr` (0 / unknown: unchecked)
+pub fn ty_enter_addr(addr: usize) {
+    let tag = if addr == 0 { 0xFF } else { CTAGS.lock().unwrap().iter().find(|(a, _)| *a == addr).map(|(_, t)| *t).unwrap_or(0xFF) };
+    TY_STACK.with(|s| s.borrow_mut().push(CUR_TY.with(|c| c.replace(tag))));
+}
+pub fn ty_leave() {
+    let prev = TY_STACK.with(|s| s.borrow_mut().pop()).unwrap_or(0xFF);
+    CUR_TY.with(|c| c.set(prev));
+}
+pub fn ty_reset() {
+    TY_STACK.with(|s| s.borrow_mut().clear());
+    CUR_TY.with(|c| c.set(0xFF));
+}
+fn cur_ty() -> u8 {
+    CUR_TY.with(|c| c.get())
 }
 
 /// percentage of values (chosen by identity) whose destructor panics (fault injection, C18)
@@ -121,6 +157,18 @@ impl VArc {
 
     #[track_caller]
     pub fn new_num(num: u64) -> VArc {
+        // a value made inside an operation (rcu closure, write loop ...) is of that container's type
+        let t = cur_ty();
+        Self::new_full(num, if t == 0xFF { 0 } else { t })
+    }
+
+    #[track_caller]
+    pub fn new_t(ty: u8) -> VArc {
+        Self::new_full(0, ty)
+    }
+
+    #[track_caller]
+    pub fn new_full(num: u64, ty: u8) -> VArc {
         let (id, popped) = {
             let mut a = ARENA.lock().unwrap();
             let id = a.next_id;
@@ -145,6 +193,7 @@ impl VArc {
                 o.num.store(num, Ordering::Relaxed);
                 o.panic_on_drop.store(false, Ordering::Relaxed);
                 o.creator.store(me_thread(), Ordering::Relaxed);
+                o.ty.store(ty as u32, Ordering::Relaxed);
                 o.live.store(true, Ordering::Relaxed);
                 p
             }
@@ -159,6 +208,7 @@ impl VArc {
                     num: AtomicU64::new(num),
                     panic_on_drop: AtomicBool::new(false),
                     creator: RealUsize::new(me_thread()),
+                    ty: AtomicU32::new(ty as u32),
                 });
                 let p = Box::into_raw(o) as usize;
                 ARENA.lock().unwrap().objs.push(p);
@@ -192,6 +242,16 @@ impl VArc {
     }
     pub fn num(&self) -> u64 {
         self.obj().num.load(Ordering::Relaxed)
+    }
+    pub fn ty(&self) -> u8 {
+        self.obj().ty.load(Ordering::Relaxed) as u8
+    }
+    /// inside a crate operation on a container of another pointee type?
+    fn check_ty(&self, what: &str) {
+        let t = cur_ty();
+        if t != 0xFF && self.is_live() && self.ty() != t {
+            report("O-type", "C12", format!("the reference count of value id={} (pointee type {}) was {} inside an operation on a container of pointee type {} {}", self.id(), self.ty(), what, t, F9B_MARK));
+        }
     }
     pub fn is_live(&self) -> bool {
         self.obj().live.load(Ordering::Relaxed)
@@ -255,6 +315,7 @@ impl Clone for VArc {
         if !self.is_live() {
             report("O-uaf", "C01", format!("reference count incremented on a destroyed value id={}", self.id()));
         }
+        self.check_ty("incremented");
         self.strong_op(Op::FetchAdd, Ordering::Relaxed);
         VArc(self.0)
     }
@@ -269,6 +330,7 @@ impl Drop for VArc {
             report("O-uaf", "C01", format!("reference count decremented on a destroyed value id={}", id));
             return;
         }
+        self.check_ty("decremented");
         let old = self.strong_op(Op::FetchSub, Ordering::Release);
         if old == 1 {
             rt::h_fence_acq();
